@@ -5,22 +5,70 @@ is exactly that list. -/
 namespace Tongo.Hashmap
 open Tongo Tongo.Bits
 
-/-- the label form encodeLabel picks: hml_short below 8 bits, else hml_long -/
-def canonLbl (label : Key) : Lbl := if label.length < 8 then .short label else .long label
+/-- the label form encodeLabel picks for a label under remaining key size `m`: the shortest of the three -/
+def canonLbl (label : Key) (m : Nat) : Lbl :=
+  if label.length > 1 ∧ minBitsRequired m < 2 * label.length - 1 ∧ allSame label = true then
+    .same (label.headD false) label.length
+  else if minBitsRequired m < label.length then .long label
+  else .short label
 
-@[simp] theorem canonLbl_bits (label : Key) : (canonLbl label).bits = label := by
-  unfold canonLbl; split <;> rfl
+theorem allSame_eq_replicate : ∀ (l : Key), allSame l = true → l = List.replicate l.length (l.headD false)
+  | [], _ => rfl
+  | b :: r, h => by
+    simp only [allSame, List.all_eq_true, beq_iff_eq] at h
+    simp only [List.length_cons, List.headD_cons, List.replicate_succ, List.cons.injEq, true_and]
+    exact List.eq_replicate_iff.mpr ⟨rfl, h⟩
 
-theorem encLabelBits_eq (label : Key) (m : Nat) : encLabelBits label (m : Int) = (canonLbl label).enc m := by
-  unfold encLabelBits canonLbl
-  split <;> simp [Lbl.enc]
-
-theorem canonLbl_enc_length (label : Key) (m : Nat) :
-    ((canonLbl label).enc m).length ≤ label.length + 9 + minBitsRequired m := by
+@[simp] theorem canonLbl_bits (label : Key) (m : Nat) : (canonLbl label m).bits = label := by
   unfold canonLbl
   split
-  · simp [Lbl.enc, unary]; omega
+  · rename_i h; exact (allSame_eq_replicate label h.2.2).symm
+  · split <;> rfl
+
+theorem encLabelBits_eq (label : Key) (m : Nat) : encLabelBits label (m : Int) = (canonLbl label m).enc m := by
+  unfold encLabelBits canonLbl
+  simp only [lenWidth_ofNat]
+  split
+  · simp [Lbl.enc]
+  · split <;> simp [Lbl.enc]
+
+theorem canonLbl_enc_length (label : Key) (m : Nat) :
+    ((canonLbl label m).enc m).length ≤ label.length + 9 + minBitsRequired m := by
+  unfold canonLbl
+  split
   · simp [Lbl.enc]; omega
+  · split
+    · simp [Lbl.enc]; omega
+    · simp [Lbl.enc, unary]; omega
+
+theorem allSame_replicate (b : Bool) (j : Nat) : allSame (List.replicate j b) = true := by
+  cases j with
+  | zero => rfl
+  | succ j => simp [List.replicate_succ, allSame]
+
+/-- the form the encoder picks is never longer than any other serialisation of the same label -/
+theorem encLabelBits_shortest (label : Key) (m : Nat) (l' : Lbl) (h : l'.bits = label) :
+    (encLabelBits label (m : Int)).length ≤ (l'.enc m).length := by
+  rw [encLabelBits_eq]
+  unfold canonLbl
+  cases l' with
+  | short s =>
+    simp only [Lbl.bits] at h; subst h
+    split
+    · simp [Lbl.enc, unary]; omega
+    · split <;> simp [Lbl.enc, unary] <;> omega
+  | long s =>
+    simp only [Lbl.bits] at h; subst h
+    split
+    · simp [Lbl.enc]; omega
+    · split <;> simp [Lbl.enc, unary] <;> omega
+  | same b j =>
+    simp only [Lbl.bits] at h; subst h
+    have hs := allSame_replicate b j
+    simp only [List.length_replicate, hs, and_true]
+    split
+    · simp [Lbl.enc]
+    · split <;> simp [Lbl.enc, unary] <;> omega
 
 /-! ### the label loop computes the longest common prefix -/
 
@@ -134,7 +182,7 @@ theorem encodeMap_sorted {V : Type} (C : Codec V) (pay : V → List Bool × List
   | f + 1, m, [(k, v)], hmn, _, _, hlen, _, hfit => by
     have hk : k.length = m := hlen (k, v) (by simp)
     obtain ⟨he, hb, hr, _⟩ := hfit (k, v) (by simp)
-    refine ⟨.leaf (canonLbl k) v, by simp [HTree.Valid, hk], by simp [HTree.meaning], ?_⟩
+    refine ⟨.leaf (canonLbl k m) v, by simp [HTree.Valid, hk], by simp [HTree.meaning], ?_⟩
     have hw := minBits_mono hmn
     have hl := canonLbl_enc_length k m
     simp only [encodeMap, he, encLabelBits_eq, HTree.toCell]
@@ -231,7 +279,7 @@ theorem encodeMap_sorted {V : Type} (C : Codec V) (pay : V → List Bool × List
     obtain ⟨tR, hvR, hmR, heR⟩ := encodeMap_sorted C pay n f (m - p.length - 1) R (by omega) (by omega) hRne
       (by intro kv hkv; have := hKlen _ (hRmem kv hkv); simp at this; omega) hRs
       (fun kv hkv => hKfit (true :: kv.1, kv.2) (hRmem kv hkv))
-    refine ⟨.fork (canonLbl p) tL tR, ?_, ?_, ?_⟩
+    refine ⟨.fork (canonLbl p m) tL tR, ?_, ?_, ?_⟩
     · simp only [HTree.Valid, canonLbl_bits]
       exact ⟨by omega, hvL, hvR⟩
     · simp only [HTree.meaning, canonLbl_bits, hmL, hmR]
